@@ -165,16 +165,21 @@ KANI_UNITS["C30"] = dict(
     prop="C30", crate="varpulis-cluster",
     appends=[("crates/varpulis-cluster/src/rate_limit.rs", "__vpv_c30", "contracts/kani/c30.rs")],
     grade="K-complete", level="other", timeout=3600, harness_timeout=900,
-    cell_grades={"c30_reset_after_rate1$|c30_reset_after_rate50$": "K-bounded(concrete rate)"},
-    functions=["varpulis-cluster/src/rate_limit.rs: TokenBucket::new, TokenBucket::remaining, TokenBucket::reset_after, RateLimitConfig::new"],
-    explanation=("PARTIAL: only the second sentence of the property (finite retry-after, no panic for any accepted configuration) is decided. Loop-free cells over all u32 "
-                 "configurations (rate 0 and burst 0 included) and all f64 token levels with 0 <= tokens <= max_tokens: TokenBucket::new establishes the invariant; remaining never "
-                 "panics; reset_after returns without panicking a finite Duration (zero when a token is available, <= 1 s when rate >= 1). NOT decided: the admission bound "
-                 "'admitted <= burst + rate*T' — it rests on the step contract of try_consume/refill, a product of two symbolic f64s (elapsed*rate), which CBMC did not finish in five "
-                 "variants (>15 min each) and Verus cannot express (no float support); a mutation of refill/try_consume is therefore NOT detected. RateLimiter::check (async, tokio "
-                 "RwLock, per-IP map and eviction) is not covered."),
+    cell_grades={"c30_reset_after_rate1$|c30_reset_after_rate50$|c30_refill_rate|c30_try_consume_rate": "K-bounded(concrete refill rate; every other input full-domain)"},
+    native_grade="bounded(native exhaustive enumeration: <= 3 clients, table capacity >= clients, burst 0..=2, rate 0, every request sequence of length <= 7)",
+    functions=["varpulis-cluster/src/rate_limit.rs: TokenBucket::new, remaining, reset_after, refill, try_consume, RateLimitConfig::new (Kani)",
+               "varpulis-cluster/src/rate_limit.rs: RateLimiter::check (native enumeration)"],
+    explanation=("PARTIAL. (1) Finite retry-after / no panic: loop-free cells over all u32 configurations (rate 0 and burst 0 included) and all f64 token levels with 0 <= tokens <= "
+                 "max_tokens: TokenBucket::new establishes the invariant; remaining never panics; reset_after returns without panicking a finite Duration (zero when a token is "
+                 "available, <= 1 s when rate >= 1). (2) The inductive step of the admission bound 'admitted <= burst + rate*T', at CONCRETE refill rates 1/s and 50/s (a product of two "
+                 "symbolic f64s did not finish in CBMC; Verus has no floats) with bucket state, burst and elapsed time symbolic: refill moves the reference time to now, keeps "
+                 "0 <= tokens <= burst, never removes tokens and credits exactly min(burst - tokens, elapsed*rate); try_consume admits iff a whole token is available after refill and "
+                 "removes exactly one. Summing the credits over an interval gives the bound for these rates; for other rates it is NOT decided. (3) RateLimiter::check (async tokio "
+                 "RwLock, per-IP HashMap, eviction) — BOUNDED STAND-IN run natively at rate 0: with the table never over capacity, every client is admitted exactly min(burst, requests) "
+                 "times, i.e. a tracked client never gets a fresh bucket. NOT decided: eviction order when new clients arrive at capacity; rates other than 1 and 50."),
     assumptions=["kani::stub std::time::Instant::now -> fixed Instant (transmute of (i64,u32); layout assumption)",
-                 "bucket states are restricted to the representation invariant 0 <= tokens <= max_tokens (established by new; its preservation by refill/try_consume is NOT proved)"],
+                 "refill / try_consume cells: concrete rates 1 and 50 only; elapsed time up to 900 000 s",
+                 "RateLimiter::check: bounded native enumeration only — nothing is proved for it"],
 )
 
 KANI_UNITS["C33"] = dict(
@@ -182,14 +187,19 @@ KANI_UNITS["C33"] = dict(
     appends=[("crates/varpulis-cluster/src/lib.rs", "__vpv_c33", "contracts/kani/c33.rs")],
     grade="K-complete", level="other", timeout=3600, harness_timeout=900,
     cell_grades={"c33_rr_|c33_ll_": "K-bounded(<= 2 candidate workers)"},
-    functions=["varpulis-cluster/src/worker.rs: WorkerNode::is_available", "varpulis-cluster/src/lib.rs: RoundRobinPlacement::place, LeastLoadedPlacement::place"],
-    explanation=("PARTIAL. is_available is proved (all statuses x all usize capacities) to be true exactly for Ready workers with spare capacity — never for Unhealthy, Draining or "
-                 "Registering. place(): None iff the candidate slice is empty, otherwise the id of ONE OF THE CANDIDATES (round-robin: candidate[counter mod n] for every counter value "
-                 "incl. wrap-around, counter advanced by one; least-loaded: membership, and the smaller load when core counts are equal) — bounded to <= 2 candidates. NOT decided: "
-                 "health_sweep / heartbeat timing (iterate a HashMap<WorkerId, WorkerNode> and log through tracing: out of Kani's reach), the call sites that filter candidates by "
-                 "is_available and honour affinity (plan_deploy_group, migrate, failover: lock + HTTP code). So the timing half of the property and 'pinned goes to its pinned worker' "
-                 "are outside this check."),
-    assumptions=["kani::stub-free: Instant built by transmute of (i64,u32) for WorkerNode::last_heartbeat (layout assumption)"],
+    native_grade="bounded(native exhaustive enumeration: 3 workers x 4 statuses x 5 affinities; 4 statuses x 5 (interval, timeout) settings x 6 heartbeat ages)",
+    functions=["varpulis-cluster/src/worker.rs: WorkerNode::is_available (Kani)", "varpulis-cluster/src/lib.rs: RoundRobinPlacement::place, LeastLoadedPlacement::place (Kani)",
+               "varpulis-cluster/src/coordinator.rs: Coordinator::plan_deploy_group, heartbeat, health_sweep; health.rs: health_sweep (native enumeration)"],
+    explanation=("PARTIAL. (1) Kani: is_available is proved (all statuses x all usize capacities) to be true exactly for Ready workers with spare capacity — never for Unhealthy, Draining "
+                 "or Registering. place(): None iff the candidate slice is empty, otherwise the id of ONE OF THE CANDIDATES (round-robin: candidate[counter mod n] for every counter value "
+                 "incl. wrap-around, counter advanced by one; least-loaded: membership, and the smaller load when core counts are equal) — bounded to <= 2 candidates. (2) The "
+                 "coordinator's own code iterates a HashMap<WorkerId, WorkerNode>, reads the wall clock and logs through tracing (out of Kani's reach), so it is covered by BOUNDED "
+                 "STAND-INS run natively: plan_deploy_group never places on a non-Ready worker, sends a pinned pipeline to its pinned worker iff that worker is available and fails iff "
+                 "no worker is available (every combination of 4 statuses over 3 workers x 5 affinities); health_sweep marks a Ready worker Unhealthy iff its last heartbeat is older than "
+                 "the configured timeout (ages one second either side of the timeout and of three intervals, five settings) and touches no other status; heartbeat revives an Unhealthy "
+                 "worker and changes no other status. NOT decided: migrate / failover call sites, deregistration races, capacity-full workers in the coordinator, more than 3 workers."),
+    assumptions=["kani::stub-free: Instant built by transmute of (i64,u32) for WorkerNode::last_heartbeat (layout assumption)",
+                 "coordinator functions: bounded native enumeration only — nothing is proved for them; wall-clock ages are one whole second away from every threshold"],
 )
 
 KANI_UNITS["C34"] = dict(
